@@ -229,9 +229,12 @@ def apply_contract(I, c, qn, args, kwargs, fr, site, finfo=None):
             if g is False:
                 continue
             # case analysis at the call site: provable guard -> taken; undetermined -> the path forks
-            sure = (g is True) or st.decide(g)
-            if not sure:
-                continue
+            if c.get("cases_fork", True):
+                sure = (g is True) or st.decide(g)
+                if not sure:
+                    continue
+            else:
+                sure = (g is True) or st.proves(g)
             for lv, ex in (case.get("post") or {}).items():
                 vals["post"][lv] = I.E.eval_spec_in(I, ex, sf)
             if "result" in case:
@@ -820,6 +823,16 @@ def _startswith(I, self, args, kw, fr, site):
 @intrinsic("str.format", "str.join", "str.lower", "str.upper", "str.strip", "str.replace", "bytes.hex",
            "str.rstrip", "str.lstrip", "str.ljust", "str.rjust", "bytes.strip", "bytes.join")
 def _opaque_str(I, self, args, kw, fr, site):
+    if "call(replace)" in site and len(args) == 2 and all(isinstance(a, VSeq) for a in args):
+        # deterministic (uninterpreted) function of its three arguments, so that specifications can name the result
+        st = I.st
+        ca = [ropes.conc_value(self), ropes.conc_value(args[0]), ropes.conc_value(args[1])]
+        if all(x is not None for x in ca):
+            return ropes.const_seq(ca[0].replace(ca[1], ca[2]))
+        f = z3.Function("uf_str_replace", smt.Seq, smt.Seq, smt.Seq, smt.Seq)
+        t = f(ropes.seq_term(st, self), ropes.seq_term(st, args[0]), ropes.seq_term(st, args[1]))
+        st.assume(smt.slen(t) >= 0)
+        return VSeq([Seg("A", t, smt.slen(t))], self.pytype)
     c = ropes.conc_value(self)
     name = site.split("(")[-1].split(")")[0] if "(" in site else ""
     allc = [ropes.conc_value(a) if isinstance(a, VSeq) else None for a in args]
